@@ -163,7 +163,8 @@ def run(run, tier, seed, replay=None):
         run.cov["registry_loop_runs_compared_with_model"] = ncorr
         run.cov["matches_with_jump_below_1"] = badjump
         if cases:
-            run.sample({"name": cases[1][1], "src_tail": cases[1][0][-160:]})
+            k = min(1, len(cases) - 1)
+            run.sample({"name": cases[k][1], "src_tail": cases[k][0][-160:]})
     common.broken_obligations(run, b, found)
     disc = sum(1 for t in b.theorems if t not in b.open_assumptions) if b.make_ok else 0
     return run.finish(max(len(b.theorems), 4), disc,
